@@ -290,6 +290,18 @@ func (w *World) pxPredicate(fn *ssa.Function, hi int) (ISet, bool) {
 						res, seen = r, true
 						return
 					}
+					// a comparison returned as a value (no branch on it): with the parameter
+					// fixed, exactly one outcome is feasible (wrap-around range tests  tag-lo <= hi-lo)
+					px2.cur = st
+					_, tok := px2.f.refine(st.env, results[0], true)
+					_, fok := px2.f.refine(st.env, results[0], false)
+					if tok != fok {
+						if seen && tok != res {
+							bad = true
+						}
+						res, seen = tok, true
+						return
+					}
 					bad = true
 					return
 				}
